@@ -11,11 +11,13 @@ RUN_MODULE = "Spec.TTLMap Model.Tags Model.Txn Model.TxnFault Run.C16"
 EXPLAIN = "explain"
 RULE = ("12 transactional programs (set / incr / delete / set_many / get over keys a, b, optionally a second backend registered under prefix "
         "'p:') x 3 modes, the block written as a context manager, as a decorated function, or with mode and timeout taken from set_transaction_mode / set_transaction_timeout; a clean run records the trace of underlying backend commands (set_lock, get, delete_many, set_many, unlock ...); then "
-        "EVERY single position and EVERY pair of positions of that trace is made to raise (quick), and every triple (thorough), in a fresh cache each time; "
+        "EVERY single position and EVERY pair of positions of that trace is made to raise (quick), and every triple (thorough), in a fresh cache each time; every single position is also made to end with "
+        "CancelledError (judged only on: the task has left the transaction); half of the cases run on a backend with latency; "
         "observed: exception seen by the caller, whether a write issued right after the block reaches the store, lock keys left, data of both "
         "stores. non-trivial: the fault hits the commit or the lock release (not the first body command)")
 TRUSTED_BASE = ["Coq 8.16.1 kernel + vm_compute", "hand-written model coq/Model/TxnFault.v (try/finally and context-manager exit order transcribed) tied by this differential run",
                 "a fault = the command raises and has no effect (the wrapper raises before calling the backend)",
+                "in every other case the wrapped backend commands take one event-loop turn before they execute (a backend with latency); the model has no latency: the order of commands is what is compared",
                 "the order in which a Python set of lock keys is iterated is observed in the clean run and given to the model"]
 ASSUMPTIONS = ["single task (no lock contention)", "TTL-less writes in the body (one set_many group at commit)", "data keys never start with ':'"]
 EXHAUSTIVE = {"quick": True, "thorough": True}
@@ -53,6 +55,7 @@ def gen_cases(rng, tier):
             cases.append(dict(base, faults=[]))
             for p in range(n):
                 cases.append(dict(base, faults=[p]))
+                cases.append(dict(base, faults=[p], cancel=True))      # the same command ends with CancelledError instead
             for p, q in itertools.combinations(range(n + 1), 2):       # every pair of positions (cheap: a few seconds in all)
                 cases.append(dict(base, faults=[p, q]))
             if tier == "thorough":
@@ -78,6 +81,7 @@ def _run(case):
                 continue
             await cache.set(k, v)
         state = {"n": 0, "phase": "body", "armed": True}
+        slow = ((case["prog"] + sum(case["faults"])) // 3) % 2 == 1
         trace = []
 
         def wrap(bi, mem, name):
@@ -91,8 +95,16 @@ def _run(case):
                 trace.append([bi, name, key, state["phase"]])
                 if p in case["faults"]:
                     async def boom():
+                        if case.get("cancel"):
+                            raise asyncio.CancelledError()      # not an Exception: e.g. a timeout around a command that hangs
                         raise Fault(f"injected at {p}")
                     return boom()
+                if slow:
+                    # a backend with latency: a command that succeeds takes an event-loop turn, one that fails fails at once
+                    async def later():
+                        await asyncio.sleep(0)
+                        return await orig(*a, **kw)
+                    return later()
                 return orig(*a, **kw)
             setattr(mem, name, w)
         for bi, mem in enumerate(mems):
@@ -124,7 +136,7 @@ def _run(case):
                     await body()
         except Fault:
             raised = "Fault"
-        except Exception as e:  # noqa
+        except BaseException as e:  # noqa
             raised = type(e).__name__
         for _ in range(5):
             await asyncio.sleep(0)
@@ -166,6 +178,8 @@ def _bcmd(c):
 
 
 def to_coq(case, obs):
+    if case.get("cancel"):
+        return C("CCancel", bool(obs["stuck"]))
     md = C({"fast": "MFast", "locked": "MLocked", "serializable": "MSerial"}[case["mode"]])
     nb = obs["nb"]
     init = [[(S(k), val_to_coq(v)) for k, v in case["init"] if (k.startswith("p:")) == (bi == 1)] for bi in range(nb)]
